@@ -1,4 +1,5 @@
 mod canon;
+mod mc;
 mod script;
 mod store;
 
@@ -8,6 +9,7 @@ fn main() {
     let args: Vec<String> = std::env::args().collect();
     match args.get(1).map(|s| s.as_str()) {
         Some("store") => store::run(),
+        Some("mc") => mc::run(),
         _ => {
             eprintln!("usage: vh store|mc|sim|pred|py ...");
             std::process::exit(2);
